@@ -50,6 +50,9 @@ def run(ctx):
             Has("call:*NamespaceProof*::verify_range", "a1.proof", "a1.share", ["call:*DataAvailabilityHeader::row_root", "call:*DataAvailabilityHeader::column_root"],
                 name="result of proof.verify_range(root, [share], share.namespace()) honoured"),
             "C04.verify.range-proof")
+        # the requested in-axis coordinate must exist: nmt-rs accepts non-perfect trees, so an honest proof of
+        # position p also verifies when relabelled to some c >= width (F14)
+        require_guard(ctx, f, Cmp(["a2", ["call:*SampleId::column_index", "call:*SampleId::row_index"]], ["call:*DataAvailabilityHeader::square_width", "a3"], pass_op="Lt", name="in-axis coordinate < dah.square_width()"), "C04.verify.coordinate-in-range")
         pos = Cmp(["a1.proof"], ["a2"], name="proof position (start/end index) bound to the requested coordinate")
         require_guard(ctx, f, pos, "C04.verify.position")
         # the comparison must be made on the full-width proof index: a narrowing conversion of
